@@ -98,6 +98,7 @@ type Exec struct {
 
 	protected  map[uint64]*model.Entry // acknowledged entries not covered by any issued DeleteRange
 	batches    map[uint64]uint64       // last index of an acked batch -> first index (C09 commit boundaries)
+	stableKept []keptStable            // C08: slices returned by Get, kept with a private copy
 	retained   []retainedRead          // C12 aliasing: GetLog results kept for later re-verification
 	sigParts   []string
 	caseSeq    []string
@@ -127,6 +128,12 @@ func (ex *Exec) abortOnIgnored(oracle string) bool {
 		return true
 	}
 	return false
+}
+
+type keptStable struct {
+	key  string
+	got  []byte // the slice the WAL returned (may alias storage if the copy-out is missing)
+	copy string
 }
 
 type retainedRead struct {
@@ -181,7 +188,7 @@ var oraclesOf = map[string][]string{
 	"C05": {"open-succeeds", "accepts-legal-ops", "model-accepts", "contiguous-readable", "content-equal", "bounds", "api-error", "not-found-outside-range", "no-panic"},
 	"C06": {"reads-linearizable", "porcupine", "no-panic"},
 	"C14": {"racing-call-result", "closed-is-final", "handles-released", "close", "no-panic", "no-deadlock", "bounded-progress", "acked-entries-survive", "open-succeeds"},
-	"C08": {"stable-get", "stable-map", "contiguous-readable", "content-equal", "bounds", "open-succeeds"},
+	"C08": {"stable-get", "stable-map", "stable-no-aliasing", "contiguous-readable", "content-equal", "bounds", "open-succeeds"},
 	"C09": {"format"},
 	"C10": {"open-succeeds", "contiguous-readable", "content-equal", "bounds", "api-error", "no-panic", "model-accepts"},
 	"C11": {"no-panic", "bounded-work", "bounded-alloc", "failed-open-releases", "no-silent-shortening", "decode-robust"},
@@ -1084,6 +1091,16 @@ func (ex *Exec) doAppend(op OpSpec) {
 			idx++
 			bad = "nonconsec"
 		}
+		if op.Key == "enc64m" && i == 0 {
+			// encoded size exactly MaxEntrySize + op.K
+			probe := ex.newEntry(idx, 0, ext)
+			ex.nextID-- // the probe's ID is reused by the real entry
+			var pb bytes.Buffer
+			(&wal.BinaryCodec{}).Encode(probe.Log(), &pb)
+			// the length prefix of Data grows from 1 to 4 bytes
+			sz = segment.MaxEntrySize + op.K - pb.Len() - 3
+			ex.probes.Add(fmt.Sprintf("append_encoded_64MiB%+d", op.K), 1)
+		}
 		e := ex.newEntry(idx, sz, ext)
 		es = append(es, e)
 		logs = append(logs, e.Log())
@@ -1371,6 +1388,7 @@ func (ex *Exec) doSet(op OpSpec) {
 		return
 	}
 	ex.settle("Set", mop, err)
+	ex.recheckStableKept()
 }
 
 func (ex *Exec) doGetStable(op OpSpec) {
@@ -1400,6 +1418,33 @@ func (ex *Exec) doGetStable(op OpSpec) {
 	}
 	if !ok {
 		ex.violate("stable-map", "stable-wrong-value", "Get(%q) returned %d bytes, model has %d bytes", key, len(got), len(ex.or.Mem[0].Stable[key]))
+		return
+	}
+	if len(got) > 0 && len(ex.stableKept) < 32 {
+		ex.stableKept = append(ex.stableKept, keptStable{key: key, got: got, copy: string(got)})
+	}
+	ex.recheckStableKept()
+}
+
+// recheckStableKept: a value returned by Get must stay what it was, whatever
+// is written to the store afterwards.
+func (ex *Exec) recheckStableKept() {
+	old := debug.SetPanicOnFault(true)
+	defer debug.SetPanicOnFault(old)
+	for _, k := range ex.stableKept {
+		changed := false
+		func() {
+			defer func() {
+				if r := recover(); r != nil {
+					changed = true
+				}
+			}()
+			changed = string(k.got) != k.copy
+		}()
+		if changed {
+			ex.violate("stable-no-aliasing", "stable-get-result-changed", "the slice returned earlier by Get(%q) changed (or became unreadable) after later stable-store writes", k.key)
+			return
+		}
 	}
 }
 
@@ -1632,6 +1677,7 @@ func (ex *Exec) finalChecks() {
 		return
 	}
 	ex.recheckRetained()
+	ex.recheckStableKept()
 	if ex.stop() {
 		return
 	}
